@@ -1182,8 +1182,8 @@ fire("c12-wrap-in-cse-wraps-wrappers", ["C12"], PR,
 fire("c12-wrap-in-cse-wraps-variables", ["C12"], PR,
      "    if isinstance(expr, (Variable, Subscript)) or is_constant(expr):\n"
      "        return expr\n\n"
-     "    if isinstance(expr, CommonSubexpression):\n        if prefix is None:",
-     "    if isinstance(expr, CommonSubexpression):\n        if prefix is None:",
+     "    # containers are not wrapped whole, their entries are",
+     "    # containers are not wrapped whole, their entries are",
      "O/wrap_in_cse/")
 fire("c12-wrap-in-cse-wraps-constants", ["C12"], PR,
      "    if isinstance(expr, (Variable, Subscript)) or is_constant(expr):\n",
@@ -3012,9 +3012,9 @@ fire("c13-polynomial-power-base-bare", ["C13"], "pymbolic/compiler.py",
 # -- u**1 next to * / % (C14; genuine defect of the pinned tree, fixed in 263d996)
 fire("c14-power-one-bare-next-to-product-level", ["C14"],
      "pymbolic/mapper/c_code.py",
-     "                    return self.rec(expr.base, PREC_POWER)\n",
-     "                    return self.rec(expr.base, enclosing_prec)\n",
-     "T/c-grammar/Power-exp-1-of-remainder-in-product")
+     "                return self.rec(expr.base, PREC_POWER)\n",
+     "                return self.rec(expr.base, enclosing_prec)\n",
+     "T/c-grammar/")
 
 # -- lcm(0, 0), Rational arithmetic (C19; genuine defects of the pinned tree,
 # fixed in df987c6, a71da4d, 864c29d)
@@ -3042,3 +3042,90 @@ silent("c19-lcm-zero-pair-tested-on-operands", ["C19"], "pymbolic/algorithm.py",
      "        return abs(q*r)\n    return abs(q*r)//g\n",
      "    if not q and not r:\n        return 0\n"
      "    return abs(q*r)//gcd(q, r)\n")
+
+
+# ---------------------------------------------------------------------------
+# round 4: each repair of this round reverted (the rule written for it fires)
+# ---------------------------------------------------------------------------
+
+fire("r4-c15-leaf-sorted-by-name-again", ["C15"],
+     "pymbolic/mapper/coefficient.py",
+     "        for dep in DependencyMapper(composite_leaves=False)(expr):\n"
+     "            if dep.name in self.target_names:\n"
+     "                raise RuntimeError(\"nonlinear expression\")\n",
+     "",
+     "constant-term-free-of-targets")
+fire("r4-c18-constructor-keeps-zero-coefficients", ["C18"],
+     "pymbolic/geometric_algebra/__init__.py",
+     "            data = {bits: coeff for bits, coeff in data.items()\n"
+     "                    if not is_zero(coeff)}\n",
+     "            data = dict(data)\n",
+     "P/ga/__init__/no-zero-coefficients-kept")
+fire("r4-c12-wrap-in-cse-wraps-arrays-whole", ["C12"], PR,
+     "        if isinstance(expr, numpy.ndarray):\n"
+     "            return make_common_subexpression(expr, prefix)\n",
+     "        pass\n",
+     "K/wrap_in_cse/componentwise")
+fire("r4-c13-rational-operand-bare", ["C13"],
+     "pymbolic/mapper/stringifier.py",
+     "        if enclosing_prec >= PREC_PRODUCT:\n"
+     "            return self.parenthesize(\n"
+     "                    self.map_quotient(expr, PREC_NONE, *args, **kwargs))\n"
+     "        else:\n"
+     "            return self.map_quotient(expr, enclosing_prec, *args, **kwargs)\n",
+     "        return self.map_quotient(expr, enclosing_prec, *args, **kwargs)\n",
+     "T/py-source/Quotient.denominator<-Rational")
+fire("r4-c13-numpy-integers-by-repr", ["C13"], "pymbolic/compiler.py",
+     "            elif isinstance(expr, numpy.bool_):\n"
+     "                expr = bool(expr)\n"
+     "            elif isinstance(expr, numpy.integer):\n"
+     "                # (numpy 2 writes these as 'np.int64(3)')\n"
+     "                expr = int(expr)\n",
+     "",
+     "T/compile/map_constant/numpy-normalised")
+fire("r4-c11-quotient-product-not-redistributed", ["C11"],
+     "pymbolic/mapper/distributor.py",
+     "            return self.rec(pymbolic.flattened_product([\n"
+     "                    type(expr)(1, self.rec(expr.denominator)),\n"
+     "                    self.rec(expr.numerator)\n"
+     "                    ]))\n",
+     "            return pymbolic.flattened_product([\n"
+     "                    type(expr)(1, self.rec(expr.denominator)),\n"
+     "                    self.rec(expr.numerator)\n"
+     "                    ])\n",
+     "product-of-mapped-child-redistributed")
+fire("r4-c13-exporter-name-without-ctx", ["C13"], "pymbolic/interop/ast.py",
+     "        return ast.Name(id=expr.name, ctx=ast.Load())",
+     "        return ast.Name(id=expr.name)",
+     "X2/exporter/ast-nodes-carry-ctx")
+fire("r4-c17-multivector-digest-in-insertion-order", ["C17"],
+     "pymbolic/mapper/persistent_hash.py",
+     "            for bits, coeff in sorted(expr.data.items()):",
+     "            for bits, coeff in expr.data.items():",
+     "S/digest/MultiVector.data/canonical-order")
+# ... and a few of the new rules on edits of their own
+fire("r4-c03-registry-snapshot-as-default-argument", ["C03"], PR,
+     "def is_constant(value: object) -> TypeIs[ScalarT]:\n"
+     "    return isinstance(value, VALID_CONSTANT_CLASSES)",
+     "def is_constant(value: object, _classes=VALID_CONSTANT_CLASSES"
+     ") -> TypeIs[ScalarT]:\n"
+     "    return isinstance(value, _classes)",
+     "O/registry/VALID_CONSTANT_CLASSES/no-derived-snapshot")
+fire("r4-c05-cse-table-from-class-attribute", ["C05"], MI,
+     "            ccd = self._cse_cache_dict = {}",
+     "            ccd = self._cse_cache_dict = type(self).__dict__.get(\n"
+     "                \"_shared_cse_table\", {})",
+     "O/cse-mixin/table-created-fresh")
+silent("r4-c05-cse-table-dict-call", ["C05", "C12"], MI,
+       "            ccd = self._cse_cache_dict = {}",
+       "            ccd = self._cse_cache_dict = dict()")
+silent("r4-c07-parser-scratch-state-restored", ["C07"], "pymbolic/parser.py",
+       "    def parse_expression(self, pstate, min_precedence=0):\n"
+       "        left_exp = self.parse_prefix(pstate)\n",
+       "    def parse_expression(self, pstate, min_precedence=0):\n"
+       "        self._depth = getattr(self, \"_depth\", 0) + 1\n"
+       "        try:\n"
+       "            left_exp = self.parse_prefix(pstate)\n"
+       "        finally:\n"
+       "            self._depth -= 1\n")
+
